@@ -241,6 +241,9 @@ def check(ctx, rep):
     rule_filtered_add(ctx, rep)
     rule_failed_notice(ctx, rep)
     rule_store_coherent(ctx, rep)
+    from .c09 import rule_memo_coherent
+
+    rule_memo_coherent(ctx, rep)
     rule_requirement_constants(ctx, rep)
     rule_shared(ctx, rep)
     rep.not_covered += ["validity / preservation of arbitrary manifest texts under the writers' text surgery", "name canonicalisation in has_requirement"]
